@@ -151,7 +151,7 @@ fn proc_subpath<Fd: AsRawFd>(fd: Fd) -> Result<String, Error> {
     let fd = fd.as_raw_fd();
     if fd == libc::AT_FDCWD {
         Ok("cwd".to_string())
-    } else if fd.is_positive() {
+    } else if fd >= 0 {
         Ok(format!("fd/{}", fd))
     } else {
         Err(ErrorImpl::InvalidArgument {
